@@ -11,6 +11,7 @@ import (
 	"time"
 
 	"github.com/goblimey/go-ntrip/rtcm/handler"
+	"github.com/goblimey/go-ntrip/rtcm/pushback"
 	"github.com/goblimey/go-ntrip/verifhook"
 
 	"verifharness/child"
@@ -183,6 +184,54 @@ func execC03Second(c *child.Ctx, k streamCase, cj []byte, first []expSeg) {
 	c.Count("second_streams_on_one_handler", 1)
 }
 
+// execC03Abandoned: the message-by-message interface (FetchNextMessageFrame on a
+// push-back channel, which HandleMessages itself is built on).  A first input is read
+// for k.Abandon messages and then given up - the connection dropped - and the same
+// handler is given a second input on a new channel.  What was pending for the first
+// input is no part of the second.
+func execC03Abandoned(c *child.Ctx, k streamCase, cj []byte) {
+	h := handler.New(fixedStart, slog.LevelInfo)
+	feed := func(data []byte) *pushback.ByteChannel {
+		ch := make(chan byte, len(data)+1)
+		for _, b := range data {
+			ch <- b
+		}
+		close(ch)
+		return pushback.New(ch)
+	}
+	fetch := func(pb *pushback.ByteChannel, limit int) []handler.Message {
+		var out []handler.Message
+		for limit < 0 || len(out) < limit {
+			m, err := h.FetchNextMessageFrame(pb)
+			if err != nil && err.Error() == "done" {
+				break
+			}
+			if m == nil {
+				break
+			}
+			out = append(out, *m)
+			endless(len(out), 1<<20, "message-by-message fetching")
+		}
+		return out
+	}
+	var why string
+	func() {
+		defer func() {
+			if r := recover(); r != nil {
+				why = fmt.Sprintf("panic: %v", r)
+			}
+		}()
+		fetch(feed(unhex(k.Input)), k.Abandon)
+		got := fetch(feed(unhex(k.Second)), -1)
+		why = compareSeq(got, k.Expect)
+	}()
+	if why != "" {
+		c.Violate("sequence-mismatch", fmt.Sprintf("second input fetched message by message with a handler whose first input (%d bytes) was given up after %d messages: %s", len(unhex(k.Input)), k.Abandon, why), cj)
+		return
+	}
+	c.Count("second_inputs_after_an_abandoned_first", 1)
+}
+
 func max0(v int) int {
 	if v < 0 {
 		return 0
@@ -344,7 +393,9 @@ type streamCase struct {
 	OnceStallMs int64 `json:"consumer_held_up_once_ms,omitempty"`
 	OnceAt      int   `json:"before_delivery,omitempty"`
 	// a second stream processed by the same handler afterwards
-	Second string `json:"second_stream_same_handler,omitempty"`
+	Second  string `json:"second_stream_same_handler,omitempty"`
+	Fetch   bool   `json:"message_by_message,omitempty"`
+	Abandon int    `json:"abandon_first_after_messages,omitempty"` // with Second: the first input is fetched message by message and given up after this many
 	// streams handled at the same time, each by its own handler
 	SideBySide []string `json:"streams_side_by_side,omitempty"`
 	// direct call (C01)
@@ -726,6 +777,46 @@ func monC01(c *child.Ctx, replay json.RawMessage) {
 		execC01Direct(c, kd, cjd)
 		c.Count("frames_with_a_wiped_field", 1)
 	}
+	// the right CRC in the wrong shape: its three bytes reversed, rotated, two of them
+	// swapped, complemented, nibble-swapped (a bridge with another byte order, a sender
+	// that inverts its CRC as other protocols do)
+	nPerm := c.Share(c.Pick(2000, 40000))
+	for i := 0; i < nPerm; i++ {
+		f := gen.RandFrame(r)
+		for !gen.SafeMSMPayload(f.Type, len(f.Bytes)-6) || len(f.Bytes) > 300 {
+			f = gen.RandFrame(r)
+		}
+		g := append([]byte(nil), f.Bytes...)
+		n := len(g)
+		a, b, cc := g[n-3], g[n-2], g[n-1]
+		switch i % 7 {
+		case 0:
+			g[n-3], g[n-2], g[n-1] = cc, b, a
+		case 1:
+			g[n-3], g[n-2], g[n-1] = b, cc, a
+		case 2:
+			g[n-3], g[n-2], g[n-1] = cc, a, b
+		case 3:
+			g[n-3], g[n-2], g[n-1] = b, a, cc
+		case 4:
+			g[n-3], g[n-2], g[n-1] = a, cc, b
+		case 5:
+			g[n-3], g[n-2], g[n-1] = ^a, ^b, ^cc
+		default:
+			g[n-3], g[n-2], g[n-1] = a<<4|a>>4, b<<4|b>>4, cc<<4|cc>>4
+		}
+		if ref.IsFrame(g) {
+			continue
+		}
+		in := append(append([]byte(nil), g...), f.Bytes...)
+		k := streamCase{Input: hexs(in), Note: fmt.Sprintf("a frame whose CRC bytes are rearranged (variant %d), then the intact frame", i%7)}
+		cj := c.BeginV(k)
+		execC01Stream(c, k, cj)
+		kd := streamCase{Input: hexs(g), Direct: true, Note: k.Note}
+		cjd, _ := json.Marshal(kd)
+		execC01Direct(c, kd, cjd)
+		c.Count("frames_with_rearranged_crc_bytes", 1)
+	}
 	// a sender whose length field counts something else (the CRC, the leader, both, one
 	// byte more or less): the CRC that is right sits some bytes before or behind the
 	// place the leader points at.  Nothing of it is a frame, whatever follows.
@@ -1006,6 +1097,10 @@ func monC03(c *child.Ctx, replay json.RawMessage) {
 			}
 			return
 		}
+		if k.Second != "" && k.Fetch {
+			execC03Abandoned(c, k, replay)
+			return
+		}
 		if k.Second != "" {
 			execC03Second(c, k, replay, nil)
 			return
@@ -1133,6 +1228,15 @@ func monC03(c *child.Ctx, replay json.RawMessage) {
 		}
 		execC03Second(c, k, cj, toExp(s1.ExpectedClean()))
 		c.EvalN(1)
+		if i%3 == 0 {
+			// ... and with the first input given up part way, after every number of messages
+			for ab := 0; ab <= len(s1.ExpectedClean()); ab++ {
+				ka := k
+				ka.Abandon, ka.Fetch = ab, true
+				cja, _ := json.Marshal(ka)
+				execC03Abandoned(c, ka, cja)
+			}
+		}
 	}
 	// a live source with a deep input queue: the bytes arrive in bursts that begin at
 	// segment boundaries (after other data, before a frame) while the handler is idle
@@ -1451,6 +1555,27 @@ func monC12(c *child.Ctx, replay json.RawMessage) {
 						c.Count("fields_wiped", 1)
 					}
 				}
+			}
+			// the CRC bytes rearranged or complemented
+			for variant := 0; variant < 4; variant++ {
+				g := append([]byte(nil), f...)
+				n := len(g)
+				a, b, cc := g[n-3], g[n-2], g[n-1]
+				switch variant {
+				case 0:
+					g[n-3], g[n-2], g[n-1] = cc, b, a
+				case 1:
+					g[n-3], g[n-2], g[n-1] = b, cc, a
+				case 2:
+					g[n-3], g[n-2], g[n-1] = ^a, ^b, ^cc
+				default:
+					g[n-3], g[n-2], g[n-1] = b, a, cc
+				}
+				if bytes.Equal(g, f) || ref.IsFrame(g) {
+					continue
+				}
+				runFault(s, v, g, fmt.Sprintf("CRC bytes rearranged (variant %d)", variant))
+				c.Count("crc_bytes_rearranged", 1)
 			}
 			// random multi-bit sets, bursts, CRC-only, payload-only
 			for k := 0; k < 24; k++ {
